@@ -68,16 +68,18 @@ def a_formula(ck, F):
 
 
 def b_no_overflow(ck, F):
-    ck.rule('B', 'no arithmetic in inverse_rle can overflow for quant in [0,31] and level in [-1024,1023] (interval reading; both ranges are contracts checked at their producers)')
+    ck.rule('B', 'no arithmetic in inverse_rle can overflow, and no narrowing / sign-changing `as` cast can change a value, for quant in [0,31] and level in [-1024,1023] '
+                 '(interval reading; both ranges are contracts checked at their producers)')
     PA = PanicAnalysis(F, ['h263_rs::decoder::state::H263State::decode_next_picture'])
     n = 0; bad = 0
     for s in PA.sites:
-        if s.fn == RLE and s.kind.startswith('assert:overflow'):
+        if s.fn == RLE and (s.kind.startswith('assert:overflow') or s.kind.startswith('cast:')):
             n += 1
             if not s.ok:
                 bad += 1
                 ck.violation('B', 'B : inverse_rle : %s : %s' % (s.kind, s.fp), {'file': s.span['file'], 'line': s.span['line'], 'function': s.fn},
-                             'dequantisation arithmetic may overflow: %s with operand ranges %s' % (s.kind, s.ops))
+                             ('dequantisation arithmetic may overflow: %s with operand ranges %s' if s.kind.startswith('assert') else
+                              'a narrowing cast in the dequantisation can change the value: %s with operand range %s') % (s.kind, s.ops))
             else:
                 ck.ok('B', '%s %s within range for the whole domain' % (s.kind, s.fp[:80]), {'file': s.span['file'], 'line': s.span['line']})
     # the contracts themselves (quant, level) are established by their producers
